@@ -5,7 +5,6 @@ import (
 	"encoding/json"
 	"fmt"
 	"os"
-	"os/exec"
 	"regexp"
 	"sort"
 	"strings"
@@ -406,7 +405,7 @@ func (p *c11) runCold(c *verifsim.Chooser, st *Stats, render bool) *Outcome {
 		f.Close()
 		args = []string{"-prop", "C11", "-cold-trace", f.Name()}
 	}
-	cmd := exec.Command(os.Args[0], args...)
+	cmd := childCommand(os.Args[0], args...)
 	cmd.Env = append(os.Environ(), "VERIF_C11_CHILD=1")
 	var ob, eb bytes.Buffer
 	cmd.Stdout, cmd.Stderr = &ob, &eb
